@@ -1,0 +1,46 @@
+// Copyright 2017-2021 Lei Ni (nilei81@gmail.com) and other contributors.
+//
+// Licensed under the Apache License, Version 2.0 (the "License");
+// you may not use this file except in compliance with the License.
+// You may obtain a copy of the License at
+//
+//     http://www.apache.org/licenses/LICENSE-2.0
+//
+// Unless required by applicable law or agreed to in writing, software
+// distributed under the License is distributed on an "AS IS" BASIS,
+// WITHOUT WARRANTIES OR CONDITIONS OF ANY KIND, either express or implied.
+// See the License for the specific language governing permissions and
+// limitations under the License.
+
+//go:build verif && dragonboat_monkeytest
+// +build verif,dragonboat_monkeytest
+
+package client
+
+import (
+	"context"
+
+	"github.com/lni/dragonboat/v4"
+	"github.com/lni/goutils/syncutil"
+)
+
+// VerifNewNodeHostClient returns a NodeHostClient without its background
+// workers: the verification harness drives one report cycle at a time.
+func VerifNewNodeHostClient(nh *dragonboat.NodeHost,
+	drummerServers []string, apiAddress string) *NodeHostClient {
+	ctx, cancel := context.WithCancel(context.Background())
+	return &NodeHostClient{
+		nh:            nh,
+		client:        NewDrummerClient(nh),
+		masterServers: append([]string{}, drummerServers...),
+		apiAddress:    apiAddress,
+		stopper:       syncutil.NewStopper(),
+		ctx:           ctx,
+		cancel:        cancel,
+	}
+}
+
+// VerifReport runs one report cycle, trying the Drummer servers in turn.
+func (dnh *NodeHostClient) VerifReport(plogIncluded bool) error {
+	return dnh.reportNodeHostInfo(dnh.ctx, plogIncluded)
+}
